@@ -8,6 +8,22 @@ hailtop BatchClient / Batch) and a fake database (vf/ci_world.py).  A state is a
 replayed on fresh objects, canonicalised (world truth + every attribute of the CI objects) and
 deduplicated.  The oracle runs inside the fake GitHub at the instant a merge PUT is accepted and
 looks only at the world's truth.
+
+Events: push to a PR (p<n>), external push to the target (T), review -> approved / changes requested /
+dismissed (r<n>A|C|N), add / remove the do-not-merge label (l<n>1|0), external status success / failure /
+pending on the PR's head (e<n>s|f|p), test batch succeeds / fails (b<id>s|f), delivery of an undelivered
+GitHub webhook through the real router (hP0 pull_request, hR<n> pull_request_review, hU0 push), delivery
+of a batch callback through the real handler (c), periodic CI update pass (t).
+
+Three searches (CONFIGS): both PRs with the full alphabet; one PR, deeper; both PRs with every GitHub
+webhook delivered instantly (so only information GitHub never pushes to the CI can be stale).
+
+Signature = <clause that was false in the world>/<why>:
+  clause  unapproved | do-not-merge-label | check-not-success | tests-not-passed | head-not-tested |
+          target-not-current | two-merges-one-target-update
+  why     ci-logic           the CI's own cached facts already forbade the merge
+          webhook-in-flight  the cache was out of date and the webhook announcing the change is undelivered
+          not-notified       the cache was out of date and no webhook exists / is pending for that change
 """
 import copy
 import gc
